@@ -225,6 +225,10 @@ impl<'a> Index<'a> {
 
     /// the (single) actor task of a tag, if unique
     pub fn task_of(&self, tag: u32) -> Option<u32> {
+        if tag >= 9000 {
+            // a handle obtained from the registry may address any instance of that service type
+            return None;
+        }
         match self.tasks_of_tag.get(&tag) {
             Some(v) if v.len() == 1 => Some(v[0]),
             _ => None,
